@@ -2,6 +2,7 @@
 from __future__ import annotations
 
 from harness import core
+from harness import envways as ew
 from harness import lexcommon as lc
 from harness.core import Atom
 from harness.props.c12 import gen_seg
@@ -15,6 +16,9 @@ TRUSTED = [
     "translator translate/lexer_key.py (key tuple of get_lexer, attributes read by Lexer.__init__/compile_rules, cache protocol shape)",
     "the delimiter-translation, line-statement, Template(...) and overlay equivalences are established by metamorphic "
     "renders (correspondence), not by a theorem; the LRU behind _lexer_cache is the model proved in C26",
+    "harness/envways.py: the options in effect of an environment are computed from its history (constructor options updated "
+    "by overlay deltas); Wire/EnvWays.lean trim-env extends the Spec/Trim reference by keep_trailing_newline and "
+    "newline_sequence as docs/api.rst words them",
 ]
 ASSUMPTIONS = ["skeleton texts share no characters with any of the delimiter sets used"]
 
@@ -106,16 +110,19 @@ def run(ctx, res):
                 res.violate("C13:interference", f"after creating {many} other environments, trim={trim} lstrip={lstrip} default environment renders "
                             f"{s!r} as {got!r}; documented {want!r}", {"source": s, "trim": trim, "lstrip": lstrip})
     ls = run_line_statements(ctx, res, jinja2)
+    ways = run_env_ways(ctx, res, jinja2)
     res.coverage.update({
-        "evaluations": total + ls["evaluations"],
-        "distinct_nontrivial": len(distinct) + ls["distinct"],
+        "evaluations": total + ls["evaluations"] + ways["evaluations"],
+        "distinct_nontrivial": len(distinct) + ls["distinct"] + ways["distinct_nontrivial"],
         "rule": (f"{nsk} random skeletons (text, signed block/comment/variable tags, raw blocks) unparsed by the Lean reference into "
                  f"{len(DELIMS)} delimiter sets (ERB with shared prefix, PHP/angle, triple parentheses, LaTeX-style with regex "
                  "metacharacters, brackets, dollar, long) x 4 trim/lstrip settings, rendered through Environment, Template(...), "
                  "overlay and overlay chains with the environments interleaved; then > 50 further configurations are created and "
-                 "the first environments re-checked; whole-line tags and comments rewritten as line statements/comments"),
+                 "the first environments re-checked; whole-line tags and comments rewritten as line statements/comments; "
+                 "environment histories (see environment_ways.rule): " + ways["rule"]),
         "samples": samples,
         "line_statement_cases": ls,
+        "environment_ways": ways,
         "environments_created_for_cache_cycling": many,
     })
 
@@ -182,5 +189,129 @@ def run_line_statements(ctx, res, jinja2):
     return {"evaluations": evaluations, "distinct": len(distinct), "known_finding_hits": known}
 
 
+def run_env_ways(ctx, res, jinja2):
+    """every way of arriving at an environment (harness/envways.py): at each use the environment must render like a
+    fresh Environment with the options in effect, like the Lean reference, and (trim+lstrip) line form == block form"""
+    rng = ctx.rng("env-ways")
+    roots = ew.default_roots(rng, ctx.pick(0, 6))
+    scenarios = ew.systematic(rng, roots) + [ew.random_scenario(rng) for _ in range(ctx.pick(60, 1500))]
+    stats = ew.attach_probes(rng, scenarios, ctx.pick(1, 3), ctx.pick(2, 3))
+    fresh = ew.Fresh(jinja2)
+    st = {"evaluations": 0, "uses": 0, "overlay_uses": 0, "overlay_uses_where_the_parents_lexer_would_show": 0,
+          "parent_rechecks": 0, "parent_rechecks_where_an_overlays_lexer_would_show": 0, "line_equivalences": 0,
+          "known_finding_hits": 0, "suppressed_repeats": 0}
+    by_way, distinct, per_key, samples = {}, set(), {}, []
+
+    def violate(key, what, replay, no_input=False):
+        per_key[key] = per_key.get(key, 0) + 1
+        if per_key[key] > 3:
+            st["suppressed_repeats"] += 1
+            return
+        res.violate(key, what, replay, no_input=no_input)
+
+    for sc in scenarios:
+        events = sc.events
+        kid_opts = {}
+
+        def on_use(ev, env, events=events, kid_opts=kid_opts):
+            o, way, dk = ev["opts"], ev["way"], ev["delta"]
+            tag = f"{way}:{dk}"
+            by_way[tag] = by_way.get(tag, 0) + 1
+            st["uses"] += 1
+            shows = False
+            other = ev["parent_opts"]
+            if other is None and kid_opts:  # a root used after its overlays: the overlays' options are "the other lexer"
+                other = kid_opts.get("last")
+            for p in ev["skeletons"]:
+                src = p["source"]
+                got, ref = ew.render(env, src), fresh(o, src)
+                st["evaluations"] += 1
+                distinct.add((ew.okey(o), way, dk, src))
+                if other is not None and fresh(other, src) != ref:
+                    shows = True
+                if got != ref:
+                    violate(f"C13:env:{way}:{dk}",
+                            f"{ew.describe(events, ev)}: {src!r} renders {got!r}; a fresh Environment with the options in effect "
+                            f"({ew._short(o) or 'defaults'}) renders {ref!r}",
+                            {"history": ew.history(events, ev), "source": src, "observed": got, "fresh_environment": ref,
+                             "documented": p["documented"]})
+                elif got != p["documented"]:
+                    violate("C13:env:reference",
+                            f"{ew.describe(events, ev)}: {src!r} renders {got!r} (as a fresh environment does) but the documented "
+                            f"whitespace rules give {p['documented']!r}",
+                            {"history": ew.history(events, ev), "source": src, "observed": got, "documented": p["documented"]},
+                            no_input=True)
+            for p in ev["lines"]:
+                src = p["line_source"]
+                got, ref = ew.render(env, src), fresh(o, src)
+                st["evaluations"] += 1
+                distinct.add((ew.okey(o), way, dk, src))
+                if other is not None and fresh(other, src) != ref:
+                    shows = True
+                toks = lc.real_lex(env, src)
+                if got != ref:
+                    violate(f"C13:env:{way}:{dk}",
+                            f"{ew.describe(events, ev)}: line form {src!r} renders {got!r}; a fresh Environment with the options "
+                            f"in effect ({ew._short(o)}) renders {ref!r}",
+                            {"history": ew.history(events, ev), "source": src, "observed": got, "fresh_environment": ref})
+                    continue
+                if p["model_tokens"][0] != "oom" and toks != p["model_tokens"]:
+                    violate("C13:env:lexer-model", f"{ew.describe(events, ev)}: tokens of {src!r} are {str(toks)[:300]}; the lexer model "
+                            f"gives {str(p['model_tokens'])[:300]}", {"history": ew.history(events, ev), "source": src}, no_input=True)
+                if o["trim_blocks"] and o["lstrip_blocks"]:
+                    # the property's own oracle: line statements/comments == whole-line block tags/comments
+                    bo = dict(o, line_statement_prefix=None, line_comment_prefix=None)
+                    bref = fresh(bo, p["block_source"])
+                    st["line_equivalences"] += 1
+                    if got != bref:
+                        if p["has_line_comment"] and got == fresh(bo, p["block_source_plus"]):
+                            st["known_finding_hits"] += 1
+                            violate("C13:linecomment:whole-line-comment-keeps-its-newline",
+                                    f"whole-line comment written as a line comment keeps its line break: {src!r} renders {got!r}, "
+                                    f"block/comment form {p['block_source']!r} renders {bref!r}",
+                                    {"line_source": src, "block_source": p["block_source"]})
+                        else:
+                            violate("C13:env:line-statement:" + ("comment" if p["has_line_comment"] else "tags"),
+                                    f"{ew.describe(events, ev)}: line form {src!r} renders {got!r}; block form "
+                                    f"{p['block_source']!r} renders {bref!r}",
+                                    {"history": ew.history(events, ev), "source": src, "block_source": p["block_source"],
+                                     "observed": got, "block_form_renders": bref})
+            if ev["parent_opts"] is not None:
+                st["overlay_uses"] += 1
+                st["overlay_uses_where_the_parents_lexer_would_show"] += shows
+                kid_opts["last"] = o
+            elif kid_opts:
+                st["parent_rechecks"] += 1
+                st["parent_rechecks_where_an_overlays_lexer_would_show"] += shows
+            if len(samples) < 3 and ev["parent_opts"] is not None and ev["skeletons"] and st["uses"] % 97 == 0:
+                samples.append({"history": ew.describe(events, ev), "source": ev["skeletons"][0]["source"],
+                                "renders": ew.render(env, ev["skeletons"][0]["source"])})
+
+        ew.execute(jinja2, events, on_use)
+    shapes = {}
+    for sc in scenarios:
+        shapes[sc.shape] = shapes.get(sc.shape, 0) + 1
+    st.update({
+        "distinct_nontrivial": len(distinct),
+        "scenarios": shapes, "roots": [ew._short(r) or "defaults" for r in roots],
+        "uses_by_way_and_overridden_option_group": dict(sorted(by_way.items())),
+        "violations_by_key": per_key, "samples": samples, **stats,
+        "rule": (f"{len(scenarios)} histories over {len(roots)} root option sets: for every root and every override set (each of "
+                 "trim_blocks/lstrip_blocks/newline_sequence/keep_trailing_newline alone, all 11 combinations, line prefixes "
+                 "(both/one/removed), delimiter sets, mixtures, none) an overlay of the fresh and of the already used root "
+                 "(Environment(...) or Template('',...).environment), sibling overlays of one used parent, overlay chains of "
+                 "depth 3 used at each level, every parent used again after its overlays, plus random histories; at each use "
+                 "2 fixed skeletons sensitive to all four whitespace options + random skeletons + line-statement/comment "
+                 "sources are rendered and compared with a fresh Environment(**options in effect), with the Lean reference "
+                 "trim-env (documented rules incl. trailing newline and newline sequence), the lexer model's tokens, and "
+                 "(trim+lstrip) with the block-tag form; a use is non-trivial when (options, way, source) is new; "
+                 "'…would_show' counts uses whose probes render differently under the parent's (overlay's) options"),
+    })
+    return st
+
+
 def replay(ctx, case):
-    return case["case"]
+    c = case["case"]
+    if isinstance(c, dict) and "history" in c:
+        return ew.replay_history(core.import_jinja(), c)
+    return c
